@@ -70,6 +70,9 @@ def Table.set : Table → Nat → Bool → List Entry → Table
   | [], n, user, ls => [(n, user, ls)]
   | c :: t, n, user, ls => if c.1 == n then (c.1, c.2.1, ls) :: t else c :: Table.set t n user ls
 
+/-- The entries of container `n` (empty if there is none). -/
+def linesOf (t : Table) (n : Nat) : List Entry := ((t.get? n).map (·.2)).getD []
+
 /-- What the parser keeps of a container. -/
 def Cont.parsed (c : Cont) : List Entry := (c.lines.filter (·.known)).map (·.e)
 
@@ -117,22 +120,20 @@ structure St where
 built before the loop). -/
 def ciscoStep (dev : Dev) (g : Gen) (isRaw : Bool) (orig : List Anchor) (bt : Table)
     (st : St) (k : Anchor) : Except Err St :=
-  let bl := ((bt.get? k.acl).map (·.2)).getD []
   match orig.find? (fun ka => ka.key == k.key) with
   | some ka =>
     -- anchor known to Netspoc: merge the referenced ACL into Netspoc's ACL
     if st.refd.contains k.acl then .error (.onlyOnce k.acl)
-    else do
-      let al := ((st.conts.get? ka.acl).map (·.2)).getD []
-      let r ← mergeLines dev g al bl
-      pure { st with conts := st.conts.set ka.acl false r, refd := k.acl :: st.refd }
+    else match mergeLines dev g (linesOf st.conts ka.acl) (linesOf bt k.acl) with
+      | .ok r => .ok { st with conts := st.conts.set ka.acl false r, refd := k.acl :: st.refd }
+      | .error e => .error e
   | none =>
     -- new anchor: the ACL is added under its own name
     if isRaw && st.conts.has k.acl then .error (.nameClash k.acl)
     else if g == .new && isRaw && st.refd.contains k.acl then .error (.onlyOnce k.acl)
-    else do
-      let r ← mergeLines dev g [] bl
-      pure { conts := st.conts.set k.acl false r, anchors := st.anchors ++ [k], refd := k.acl :: st.refd }
+    else match mergeLines dev g [] (linesOf bt k.acl) with
+      | .ok r => .ok { conts := st.conts.set k.acl false r, anchors := st.anchors ++ [k], refd := k.acl :: st.refd }
+      | .error e => .error e
 
 def foldExcept {σ β ε : Type} (f : σ → β → Except ε σ) : σ → List β → Except ε σ
   | s, [] => .ok s
@@ -144,10 +145,11 @@ def foldExcept {σ β ε : Type} (f : σ → β → Except ε σ) : σ → List 
 def unusedWarnings (isRaw : Bool) (bt : Table) (refd : List Nat) : List Nat :=
   if isRaw then (bt.map (·.1)).filter (fun n => !refd.contains n) else []
 
-def mergeCisco (dev : Dev) (g : Gen) (a : Conf) (f : File) : Except Err (Conf × List Nat) := do
-  let bt := f.table
-  let st ← foldExcept (ciscoStep dev g f.isRaw a.anchors bt) { conts := a.conts, anchors := a.anchors } f.anchors
-  pure ({ conts := st.conts, anchors := st.anchors }, unusedWarnings f.isRaw bt st.refd)
+def mergeCisco (dev : Dev) (g : Gen) (a : Conf) (f : File) : Except Err (Conf × List Nat) :=
+  match foldExcept (ciscoStep dev g f.isRaw a.anchors f.table)
+      { conts := a.conts, anchors := a.anchors } f.anchors with
+  | .ok st => .ok ({ conts := st.conts, anchors := st.anchors }, unusedWarnings f.isRaw f.table st.refd)
+  | .error e => .error e
 
 /-! ### Linux chains, PAN-OS vsys, NSX policies -/
 
